@@ -95,6 +95,44 @@ def Settled (c : Crypto) (srv : Bool) (rx : Rx) : Prop := rxStep c srv rx.dec rx
 instance (c : Crypto) (srv : Bool) (rx : Rx) : Decidable (Settled c srv rx) := by
   unfold Settled; exact inferInstance
 
+/-! ## `Read` after `fix: obfs4: deliver all decoded payload before reporting a read error`
+
+`read` above is the `Read` of the tree before that repair: it returns the error of
+`readPackets` together with the first `n` decoded bytes, even when more decoded bytes remain.  The
+repaired `Read` holds the error back in `obfs4Conn.readErr` while decoded payload is pending and
+reports it, exactly once, from the call that drains the payload (or the next one); it is not
+latched.  Delivered concatenation, blocking and the error reported are unchanged — only the `Read`
+call that carries the error moves — so the session theorems about `read` carry over; the driver's
+`drain` (what the tie compares) is the same function of the event list for both. -/
+
+/-- reader state of the repaired `Read`: the receive side plus the held-back error -/
+structure Rd where
+  rx : Rx
+  held : Option RxErr
+deriving Repr
+
+inductive ReadResultH
+  | ret (st : Rd) (bytes : Bytes) (err : Option RxErr) (rest : List NetEv)
+  | blocked (st : Rd)
+deriving Repr
+
+/-- the repaired `obfs4Conn.Read(b)`, `len b = n` -/
+def readHeld (c : Crypto) (isServer : Bool) (n : Nat) (st : Rd) (evs : List NetEv) : ReadResultH :=
+  if st.rx.decoded.length > 0 then
+    -- payload from earlier calls: no network read; a held error is reported when this call drains it
+    let rx' := { st.rx with decoded := st.rx.decoded.drop n }
+    if rx'.decoded.length > 0 then .ret ⟨rx', st.held⟩ (st.rx.decoded.take n) none evs
+    else .ret ⟨rx', none⟩ (st.rx.decoded.take n) st.held evs
+  else match st.held with
+    | some e => .ret ⟨st.rx, none⟩ [] (some e) evs
+    | none =>
+      match read c isServer n st.rx evs with
+      | .blocked rx => .blocked ⟨rx, none⟩
+      | .ret rx bytes none rest => .ret ⟨rx, none⟩ bytes none rest
+      | .ret rx bytes (some e) rest =>
+        if rx.decoded.length > 0 then .ret ⟨rx, some e⟩ bytes none rest
+        else .ret ⟨rx, none⟩ bytes (some e) rest
+
 /-! ## both directions of one endpoint -/
 
 /-- One endpoint: the reader-side state and the writer-side state (the encoder's frame index).
